@@ -493,6 +493,13 @@ def obligations(tier, seed):
     specs.append(spec(MOD, 'RestoreLinkedTile', 'twin/RestoreLinkedTile', kind='witness', cfg=dict(link='symlink', op='store_tile')))
     for label, h, patches, c in (CANARIES if tier == 'thorough' else CANARIES[:3] + CANARIES[4:]):   # (quick skips one)
         specs.append(spec(MOD, h, 'canary/' + label, kind='canary', cfg=c, patches=patches, cost=5))
+    # sqlite / mbtiles-with-timestamps: the time a tile was stored reads back as that time and the ttl filter hides exactly the older
+    # tiles, whatever the UTC offset of the host (SQLite keeps local-time strings; E2 with the offset as a solver variable)
+    from props import sqltime
+    specs.extend(sqltime.specs([('stored_time_reads_back', 'sqlite-time/stored-time-reads-back-for-any-utc-offset'),
+                                ('ttl_hides_exactly_the_older', 'sqlite-time/ttl-hides-exactly-the-older-tiles')], tier))
+    specs.append(sqltime.twin())
+    specs.append(sqltime.canary('stored_time_reads_back', 'sqlite insert stores UTC strings', "datetime(?, 'unixepoch', 'localtime'))\")", "datetime(?, 'unixepoch'))\")"))
     return specs
 
 
@@ -525,3 +532,9 @@ MANIFEST_ENTRY = dict(
     note='One-second resolution (the code truncates deliberately; the band (T, T+1) is accepted either way); cache/source/locker/clock are stubs with '
          'stated contracts.',
 )
+
+# --- manifest text refreshed after rounds 6-8 (obligations added since the entry above was written)
+MANIFEST_ENTRY['text'] = MANIFEST_ENTRY['text'] + ' SQLite backends: the time a tile was stored reads back as that time and the ttl filter hides exactly the older tiles for every UTC offset of the host (E2, model of SQLite date expressions and strptime/mktime).'
+MANIFEST_ENTRY['engine'] = 'E1+E2'
+META['assumptions'] = list(META.get('assumptions', [])) + ["sqlite-time obligations: SQLite date expressions of mbtiles.py and time.strptime/mktime are an arithmetic model on 'local seconds' (epoch + UTC offset of the host, |offset| <= 14 h, no DST change between store and read)"]
+META['bounds'] = META.get('bounds', '') + '; sqlite-time: times 0..4e9 s, ttl 3600 s (concrete: formatted into the statement)'
